@@ -49,7 +49,18 @@ def build_fullres(case):
                         "voxel_offset": [0, 0, 0]}]}
     if case.get("info_type"):
         info["type"] = case["info_type"]
+    # a description may already name its encoding / block size (the options of
+    # generate-scales-info are optional overrides)
+    if case.get("desc_encoding") and case.get("encoding"):
+        info["scales"][0]["encoding"] = case["encoding"]
+    if case.get("desc_block"):
+        info["scales"][0]["compressed_segmentation_block_size"] = list(
+            case["desc_block"])
     return info
+
+
+def cli_encoding(case):
+    return None if case.get("desc_encoding") else case["encoding"]
 
 
 def generate(ctx, case):
@@ -69,8 +80,8 @@ def generate(ctx, case):
                 argv += ["--max-scales", str(case["max_scales"])]
             if case["type"]:
                 argv += ["--type", case["type"]]
-            if case["encoding"]:
-                argv += ["--encoding", case["encoding"]]
+            if cli_encoding(case):
+                argv += ["--encoding", cli_encoding(case)]
             rc = gsi.main(argv)
             if rc != 0:
                 ctx.fail("generate-scales-info returned %r" % rc)
@@ -80,7 +91,7 @@ def generate(ctx, case):
         finally:
             ctx.rmtree(d)
     gsi.set_info_params(info, dataset_type=case["type"],
-                        encoding=case["encoding"])
+                        encoding=cli_encoding(case))
     # a second description derived from the same template by a shallow copy
     # (it shares the full-resolution scale dictionary)
     template_scale = info["scales"][0]
@@ -325,6 +336,10 @@ def cases(draw):
             "info_type": draw(st.sampled_from([None, "image",
                                                "segmentation"])),
             "encoding": enc, "data_type": dt, "num_channels": nch,
+            "desc_encoding": draw(st.integers(0, 3)) == 0,
+            "desc_block": draw(st.sampled_from(
+                [None, None, [8, 8, 8], [4, 4, 4], [16, 8, 2]]))
+            if enc == "compressed_segmentation" else None,
             "cli": draw(st.integers(0, 9)) == 0}
 
 
